@@ -96,6 +96,12 @@ fn exec(problem: &P, state: &mut State<'static, P>, a: &Value, k: usize) -> Valu
             pops.current_mut().push(c);
             0
         }),
+        "clone_from" => guarded(&mut || {
+            let mut pops = state.populations_mut();
+            let src = pops.current()[s as usize - 1].clone();
+            pops.current_mut()[i].clone_from(&src);
+            0
+        }),
         "remove" => guarded(&mut || {
             state.populations_mut().current_mut().remove(i);
             0
@@ -232,7 +238,16 @@ pub fn main(args: &Args) -> usize {
                         break match pick {
                             0..=11 if n < 12 => act("new", 0, s),
                             12..=19 if n < 12 => act("new_unevaluated", 0, s),
-                            20..=25 if n > 0 && n < 12 => act("clone", i, 0),
+                            20..=22 if n > 0 && n < 12 => act("clone", i, 0),
+                            23..=25 if n > 1 => {
+                                let j = loop {
+                                    let j = rng.gen_range(1..=n);
+                                    if j != i {
+                                        break j;
+                                    }
+                                };
+                                act("clone_from", i, j as u32)
+                            }
                             26..=33 if n > 0 => act("remove", i, 0),
                             34..=40 if n > 0 => act("solution_mut", i, s),
                             41..=43 if n > 0 => act("solution_mut_peek", i, 0),
